@@ -805,6 +805,70 @@ func c04Whitelists(r *ev.Run, g *rng.R, caseID string) {
 			time.Sleep(30 * time.Millisecond)
 			return count(seen, "rejected-"), count(seen, "allowed-"), nil
 		}},
+		{"quicswarm.WithWhilelist/after-dialling-a-wrong-identity-there", func() (int, int, error) {
+			realm := memswarm.NewRealm(memswarm.WithQueueLen(256))
+			idR := quicswarm.DefaultFingerprinter(keyR.Pub)
+			v, err := quicswarm.New[memAddr](realm.NewSwarm(), keyV.Priv, quicswarm.WithWhilelist[memAddr](func(a p2p.Addr) bool { return p2p.ExtractPeerID(a) != idR }))
+			if err != nil {
+				return 0, 0, err
+			}
+			rj, err := quicswarm.New[memAddr](realm.NewSwarm(), keyR.Priv)
+			if err != nil {
+				return 0, 0, err
+			}
+			al, err := quicswarm.New[memAddr](realm.NewSwarm(), keyA.Priv)
+			if err != nil {
+				return 0, 0, err
+			}
+			defer v.Close()
+			defer rj.Close()
+			defer al.Close()
+			seen, cf := collect(func(c context.Context, f func(string)) error {
+				return v.Receive(c, func(m p2p.Message[quicswarm.Addr[memAddr]]) { f(string(m.Payload)) })
+			}, func(c context.Context, f func(string)) error {
+				return v.ServeAsk(c, func(_ context.Context, resp []byte, m p2p.Message[quicswarm.Addr[memAddr]]) int {
+					f(string(m.Payload))
+					return 0
+				})
+			})
+			defer cf()
+			dst := v.LocalAddrs()[0]
+			// the guarded node first dials the rejected peer's transport address under identities that peer does not hold (the
+			// calls must fail); whatever connection that leaves behind must not become a way in for the rejected peer
+			for k := 0; k < 2; k++ {
+				wrong := quicswarm.Addr[memAddr]{ID: p2p.PeerID{7, byte(k), 9}, Addr: rj.LocalAddrs()[0].Addr}
+				tctx, tcf := context.WithTimeout(ctx, time.Second)
+				if k == 0 {
+					v.Tell(tctx, wrong, p2p.IOVec{[]byte("to-wrong-identity")})
+				} else {
+					v.Ask(tctx, make([]byte, 8), wrong, p2p.IOVec{[]byte("ask-to-wrong-identity")})
+				}
+				tcf()
+			}
+			// several messages and asks from the rejected peer back to back: one pending Receive / ServeAsk call sees them all
+			for k := 0; k < 4; k++ {
+				tctx, tcf := context.WithTimeout(ctx, 150*time.Millisecond)
+				rj.Tell(tctx, dst, p2p.IOVec{[]byte(fmt.Sprintf("rejected-burst-%d", k))})
+				tcf()
+			}
+			for k := 0; k < 4; k++ {
+				tctx, tcf := context.WithTimeout(ctx, 150*time.Millisecond)
+				rj.Ask(tctx, make([]byte, 8), dst, p2p.IOVec{[]byte(fmt.Sprintf("rejected-ask-burst-%d", k))})
+				tcf()
+			}
+			for i := 0; i < 3; i++ {
+				tctx, tcf := context.WithTimeout(ctx, 500*time.Millisecond)
+				rj.Tell(tctx, dst, p2p.IOVec{[]byte(fmt.Sprintf("rejected-%d", i))})
+				rj.Ask(tctx, make([]byte, 8), dst, p2p.IOVec{[]byte(fmt.Sprintf("rejected-ask-%d", i))})
+				tcf()
+				tctx, tcf = context.WithTimeout(ctx, 2*time.Second)
+				al.Tell(tctx, dst, p2p.IOVec{[]byte(fmt.Sprintf("allowed-%d", i))})
+				al.Ask(tctx, make([]byte, 8), dst, p2p.IOVec{[]byte(fmt.Sprintf("allowed-ask-%d", i))})
+				tcf()
+			}
+			time.Sleep(30 * time.Millisecond)
+			return count(seen, "rejected-"), count(seen, "allowed-"), nil
+		}},
 		{"wlswarm.WrapSecureAsk", func() (int, int, error) {
 			realm := memswarm.NewSecureRealm[x509.PublicKey](memswarm.WithQueueLen(64))
 			base := realm.NewSwarm(keyV.Pub)
